@@ -1172,6 +1172,7 @@ def enc_alllens(case, ctx):
 EXCH_TEST_RA = 0x00005879DD1D51E175946F23B1B41E93BA31C584AE59A426EC1046A4D03B06C8   # GM/T 0044.3 Annex A "rA"
 EXCH_TEST_RB = 0x00018B98C44BEF9F8537FB7D071B2C928B3BC65BD3D69E1EEE213564905634FE   # GM/T 0044.3 Annex A "rB"
 
+_MPK_SLOT = {}
 exch_case = st.fixed_dictionaries({
     "ke": _secret(), "ida": _ident(), "idb": _ident(), "ra": _nonce(), "rb": _nonce(),
     "klen": st.one_of(st.integers(1, 64), st.sampled_from([16, 31, 32, 33, 64, 65, 128]), st.integers(1, 600)),
@@ -1197,6 +1198,21 @@ def exch(case, ctx):
     keyA = _extract_enc(ctx, l, msk, ke, ida, where, M.HID_EXCH, "exch")
     keyB = _extract_enc(ctx, l, msk, ke, idb, where, M.HID_EXCH, "exch")
     mpk = _enc_pub(ke)
+    if (ke ^ klen) & 1:
+        # a caller that keeps one SM9_EXCH_MASTER_KEY variable and fills it with one master key after the other: the same address
+        # carries a different key in every case this worker runs
+        if "slot" not in _MPK_SLOT:
+            _MPK_SLOT["slot"] = Buf(len(mpk.raw()), fill=0)
+        # first another master key in the object and one responder step under it (its outcome is of no interest) ...
+        ke0 = ke % (NN - 2) + 1
+        _MPK_SLOT["slot"].write(_enc_pub(ke0).raw())
+        s0 = _scripted(ke & 0xFFF, rb)
+        l.sm9_exch_step_1B(_MPK_SLOT["slot"], Buf.of(ida), len(ida), Buf.of(idb), len(idb), keyB, pt1_in(g1pt(7)), fe_out(3), Buf(16, fill=0), 16)
+        s0.reset()
+        # ... then this case's key in the same object
+        _MPK_SLOT["slot"].write(mpk.raw())
+        mpk = _MPK_SLOT["slot"]
+        ctx.note("master-key-object-reused")
     # A1-A4
     RA = fe_out(3); rA = z_out()
     s = _scripted(ke & 0xFFFF, ra)
